@@ -75,7 +75,7 @@ def make_pool(family, kind, N, S, wdims, tdt, seed, auto=False):
         Y = np.array(TPLB_CLASSES)[np.arange(N) % len(TPLB_CLASSES)].reshape(N, 1)
         if kind == 'adversarial' and N >= 5:
             Y[4, 0] = 1                                                   # an undeclared class value among the building traces
-    elif family in ('tplstatic', 'tpldpa'):
+    elif family in ('tplstatic', 'tpldpa', 'tplstatic0', 'tpldpa0'):
         Y = np.array(TPL_CLASSES)[rng.randint(0, len(TPL_CLASSES), (N, W))]
     else:
         Y = rng.randint(0, len(CLASSES), (N, W))
@@ -116,8 +116,9 @@ class DistSystem:
         from scared.distinguishers import partitioned as P, template as T
         self.clockP = env.install_clock(P)
         self.clockT = env.install_clock(T)
-        if family in ('tplstatic', 'tpldpa'):
+        if family in ('tplstatic', 'tpldpa', 'tplstatic0', 'tpldpa0'):
             self._prepare_template()
+        self.fam = family[:-1] if family.endswith('0') else family       # statistic family (an unbuilt attack computes the same scores once built)
 
     # ----------------------------------------------------------------------------------------------------- construction
     def describe(self):
@@ -163,18 +164,19 @@ class DistSystem:
             return sc.MIADistinguisher(bin_edges=mia_edges(self.kind), precision=self.prec, **kw)
         if f == 'tplbuild':
             return tplbuild_class()(partitions=list(TPLB_CLASSES), precision=self.prec)
-        if f in ('tplstatic', 'tpldpa'):
+        if f in ('tplstatic', 'tpldpa', 'tplstatic0', 'tpldpa0'):
             old = sc.Container._BATCH_SIZE
             sc.set_batch_size(4)
             try:
                 cont = sc.Container(sc.traces.read_ths_from_ram(self._bX, v=self._bv))
-                if f == 'tplstatic':
+                if f.startswith('tplstatic'):
                     a = sc.TemplateAttack(container_building=cont, reverse_selection_function=self._rsf, model=sc.Value(), precision=self.prec, partitions=list(TPL_CLASSES))
                 else:
                     a = sc.TemplateDPAAttack(container_building=cont, reverse_selection_function=self._rsf, selection_function=self._asf, model=sc.Value(),
                                              precision=self.prec, partitions=list(TPL_CLASSES))
-                self._set_clock(a._build_analysis)
-                a.build()
+                if not f.endswith('0'):
+                    self._set_clock(a._build_analysis)
+                    a.build()
             finally:
                 sc.Container._BATCH_SIZE = old
             return a
@@ -187,16 +189,22 @@ class DistSystem:
 
     # ----------------------------------------------------------------------------------------------------- model
     def model_init(self):
-        return (0, 0, False, True, 0)        # rows consumed, consecutive computes, accepted any, alive, rejections so far
+        # rows consumed, consecutive computes, accepted any, alive, rejections so far, built (template attacks), kinds of the refused calls so far
+        return (0, 0, False, True, 0, not self.family.endswith('0'), ())
 
     def terminal(self, m):
-        i, c, acc, alive, nr = m
+        i, c, acc, alive, nr, built, rk = m
         return (not alive) or (i == self.N and c >= self.max_cc)
 
     def menu(self, m):
-        i, c, acc, alive, nr = m
+        i, c, acc, alive, nr, built, rk = m
         out = []
         if not alive:
+            return out
+        if not built:
+            out.append((('B',), 0))
+            if nr < self.max_rej:
+                out.append((('R', 'notbuilt'), 1))
             return out
         for k in range(1, self.N - i + 1):
             out.append((('U', k), 0))
@@ -209,7 +217,9 @@ class DistSystem:
         return out
 
     def _rej_enabled(self, kind, m):
-        i, c, acc, alive, nr = m
+        i, c, acc, alive, nr, built, rk = m
+        if kind == 'notbuilt':
+            return False
         if kind in ('len', 'words'):
             return acc                                   # relative to EARLIER batches; as a first call they define the shape
         if kind in ('dparange', 'autorange', 'autoneg', 'dpafloat'):
@@ -259,6 +269,15 @@ class DistSystem:
                 self._last = res; self._last_was_c = True
             elif ev[0] == 'R':
                 self._reject_call(obj, ev[1])
+            elif ev[0] == 'B':
+                sc = _scared()
+                old = sc.Container._BATCH_SIZE
+                sc.set_batch_size(4)
+                try:
+                    self._set_clock(obj._build_analysis)
+                    obj.build()
+                finally:
+                    sc.Container._BATCH_SIZE = old
         except Exception as e:          # noqa - the observation records what the real call did
             obs['exc'] = type(e).__name__
             obs['exc_msg'] = str(e)[:200]
@@ -315,6 +334,12 @@ class DistSystem:
             da = da.astype('float64')
         elif kind == 'dtype64':
             da = da.astype('int64')
+        elif kind == 'notbuilt':
+            pass                                         # a perfectly valid batch, refused because the templates are not built yet
+        elif kind == 'tplundeclared':
+            da = da.copy(); da.reshape(-1)[0] = 7        # a hypothesis value that is not a declared class
+        elif kind == 'ndim':
+            tr = tr.reshape(-1)                          # 1-D traces
         elif kind == 'tplwords':
             da = np.concatenate([da.reshape(k, -1)] * 2, axis=1)
         elif kind == 'memory':
@@ -340,7 +365,7 @@ class DistSystem:
         if i in self._ref:
             return self._ref[i]
         X = self.X[:i]; Y = self.Y[:i].reshape(i, -1)
-        f = self.family
+        f = self.fam
         out = None
         wshape = self.wdims if len(self.wdims) > 1 else (self.W,)
         if f in ('cpa', 'cpa_alt'):
@@ -382,6 +407,8 @@ class DistSystem:
         if i not in self._oneshot:
             saved = (self._last, self._last_was_c, self._cur_rows)
             obj = self.fresh()
+            if self.family.endswith('0'):
+                self.apply(obj, ('B',))
             self._set_clock(obj)
             self._call_update(obj, self.X[:i], self.Y[:i])
             self._oneshot[i] = self._compute(obj)
@@ -398,59 +425,68 @@ class DistSystem:
     PROP = 'C01'
 
     def model_step(self, m, ev, obs):
-        i, c, acc, alive, nr = m
+        i, c, acc, alive, nr, built, rk = m
         v = []
         cfg = '%s tdt=%s prec=%s S=%d words=%s pool=%s N=%d auto=%s policy=%s' % (self.family, self.tdt, self.prec, self.S, list(self.wdims), self.kind, self.N, self.auto, self.policy)
+        after = ('after-reject=%s/' % '+'.join(rk)) if rk else ''
+        if rk:
+            cfg += ' [after refused calls: %s]' % ', '.join(rk)
+        if ev[0] == 'B':
+            if obs['exc'] is not None:
+                v.append((self._fp(after + 'build-raised'), '%s: build() raised %s: %s' % (cfg, obs['exc'], obs.get('exc_msg'))))
+                return (i, 0, acc, False, nr, built, rk), v
+            return (i, 0, acc, True, nr, True, rk), v
         if ev[0] == 'U':
             k = ev[1]
             if obs['exc'] is not None:
-                v.append((self._fp('valid-update-raised'), '%s: valid update of %d rows after %d accepted rows raised %s: %s' % (cfg, k, i, obs['exc'], obs.get('exc_msg'))))
-                return (i, 0, acc, False, nr), v
+                v.append((self._fp(after + 'valid-update-raised'), '%s: valid update of %d rows after %d accepted rows raised %s: %s' % (cfg, k, i, obs['exc'], obs.get('exc_msg'))))
+                return (i, 0, acc, False, nr, built, rk), v
             if obs['pt'] != i + k:
-                v.append((self._fp('counter'), '%s: processed_traces=%d after %d accepted rows' % (cfg, obs['pt'], i + k)))
-            return (i + k, 0, True, True, nr), v
+                v.append((self._fp(after + 'counter'), '%s: processed_traces=%d after %d accepted rows' % (cfg, obs['pt'], i + k)))
+            return (i + k, 0, True, True, nr, built, rk), v
         if ev[0] == 'C':
             if i == 0:
                 if obs['exc'] is None:
-                    v.append((self._fp('compute-before-update-accepted'), '%s: compute() with no accepted trace returned a result' % cfg))
+                    v.append((self._fp(after + 'compute-before-update-accepted'), '%s: compute() with no accepted trace returned a result' % cfg))
                 elif obs['exc'] not in ('DistinguisherError', 'TTestError'):
-                    v.append((self._fp('compute-before-update-wrong-exception'), '%s: compute() with no accepted trace raised %s: %s' % (cfg, obs['exc'], obs.get('exc_msg'))))
+                    v.append((self._fp(after + 'compute-before-update-wrong-exception'), '%s: compute() with no accepted trace raised %s: %s' % (cfg, obs['exc'], obs.get('exc_msg'))))
                 if obs['pt'] != 0:
-                    v.append((self._fp('counter'), '%s: processed_traces=%d after 0 accepted rows' % (cfg, obs['pt'])))
-                return (i, c + 1, acc, True, nr), v
+                    v.append((self._fp(after + 'counter'), '%s: processed_traces=%d after 0 accepted rows' % (cfg, obs['pt'])))
+                return (i, c + 1, acc, True, nr, built, rk), v
             if obs['exc'] is not None:
-                v.append((self._fp('compute-raised'), '%s: compute() after %d accepted rows raised %s: %s' % (cfg, i, obs['exc'], obs.get('exc_msg'))))
-                return (i, c + 1, acc, False, nr), v
+                v.append((self._fp(after + 'compute-raised'), '%s: compute() after %d accepted rows raised %s: %s' % (cfg, i, obs['exc'], obs.get('exc_msg'))))
+                return (i, c + 1, acc, False, nr, built, rk), v
             if obs['pt'] != i:
-                v.append((self._fp('counter'), '%s: processed_traces=%d after %d accepted rows (at compute)' % (cfg, obs['pt'], i)))
-            v += self._check_result(cfg, i, obs)
-            return (i, c + 1, acc, True, nr), v
+                v.append((self._fp(after + 'counter'), '%s: processed_traces=%d after %d accepted rows (at compute)' % (cfg, obs['pt'], i)))
+            v += self._check_result(cfg, i, obs, after)
+            return (i, c + 1, acc, True, nr, built, rk), v
         if ev[0] == 'R':
             kind = ev[1]
             if obs['exc'] is None:
                 # the implementation ACCEPTED a call from the rejection menu: not a rejection, outside the property; stop this branch
                 self.accepted_kinds.add(kind)
-                return (i, 0, acc, False, nr + 1), v
+                return (i, 0, acc, False, nr + 1, built, rk), v
             self.raised_kinds.add(kind)
             if obs['pt'] != i:
-                v.append((self._fp('reject=%s/counter' % kind), '%s: processed_traces=%d after a refused %s call (%s) with %d accepted rows' % (cfg, obs['pt'], kind, obs['exc'], i)))
-            return (i, 0, acc, True, nr + 1), v
+                v.append((self._fp('reject=%s/counter' % kind), '%s: processed_traces=%d right after a refused %s call (%s: %s) with %d accepted rows'
+                          % (cfg, obs['pt'], kind, obs['exc'], obs.get('exc_msg'), i)))
+            return (i, 0, acc, True, nr + 1, built, rk + (kind,)), v
         raise ValueError(ev)
 
-    def _check_result(self, cfg, i, obs):
+    def _check_result(self, cfg, i, obs, after=''):
         v = []
         res = obs['res']
         one = self.oneshot(i)
         ref = self.reference(i)
-        names = {'tplbuild': ('templates', 'pooled_covariance', 'pooled_covariance_inv'), 'ttacc': ('mean', 'var')}.get(self.family, ('result',))
+        names = {'tplbuild': ('templates', 'pooled_covariance', 'pooled_covariance_inv'), 'ttacc': ('mean', 'var')}.get(self.fam, ('result',))
         for j, got in enumerate(res):
             o = one[j]
             if got.shape != o.shape:
-                v.append((self._fp('shape-vs-oneshot/' + names[j]), '%s: %s shape %s after %d rows, one-shot gives %s' % (cfg, names[j], got.shape, i, o.shape)))
+                v.append((self._fp(after + 'shape-vs-oneshot/' + names[j]), '%s: %s shape %s after %d rows, one-shot gives %s' % (cfg, names[j], got.shape, i, o.shape)))
                 continue
-            if self.exact and self.family not in ('tplstatic', 'tpldpa'):      # matching scores are sums of non-representable Mahalanobis terms: rounding differs with the split
+            if self.exact and self.fam not in ('tplstatic', 'tpldpa'):      # matching scores are sums of non-representable Mahalanobis terms: rounding differs with the split
                 if not np.array_equal(got, o, equal_nan=True):
-                    v.append((self._fp('differs-from-oneshot/' + names[j]), '%s: %s after %d rows fed by this history differs from the one-batch result: got %s one-shot %s'
+                    v.append((self._fp(after + 'differs-from-oneshot/' + names[j]), '%s: %s after %d rows fed by this history differs from the one-batch result: got %s one-shot %s'
                               % (cfg, names[j], i, np.asarray(got).ravel()[:6].tolist(), np.asarray(o).ravel()[:6].tolist())))
             else:
                 with np.errstate(all='ignore'):
@@ -459,7 +495,7 @@ class DistSystem:
                     rel = np.nanmax(np.abs(got - o) / sc) if np.isfinite(o).any() else 0.0
                 tol = self.tol * (256 if names[j] == 'pooled_covariance_inv' else 1)
                 if nanbad or rel > tol:
-                    v.append((self._fp('differs-from-oneshot/' + names[j]), '%s: %s after %d rows differs from the one-batch result beyond rounding (rel %.3g)' % (cfg, names[j], i, rel)))
+                    v.append((self._fp(after + 'differs-from-oneshot/' + names[j]), '%s: %s after %d rows differs from the one-batch result beyond rounding (rel %.3g)' % (cfg, names[j], i, rel)))
                 else:
                     self.max_err = max(self.max_err, float(rel))
             if ref is not None and ref[j] is not None:
@@ -468,7 +504,7 @@ class DistSystem:
                     nz = np.abs(r[d]); floor = float(nz.max()) if nz.size and nz.max() > 0 else 1.0
                 cmpd = compare(got, r, d, self.tol, floor)
                 if 'shape' in cmpd:
-                    v.append((self._fp('shape/' + names[j]), '%s: %s shape %s, definition gives %s' % (cfg, names[j], got.shape, r.shape)))
+                    v.append((self._fp(after + 'shape/' + names[j]), '%s: %s shape %s, definition gives %s' % (cfg, names[j], got.shape, r.shape)))
                     continue
                 if amp is not None:
                     # entries whose subtractive denominator amplifies rounding beyond tol/8 are not compared with the definition
@@ -480,13 +516,13 @@ class DistSystem:
                 for kind in ('undefined_bad', 'defined_bad', 'value_bad'):
                     if cmpd[kind].any():
                         idx = tuple(int(t) for t in np.argwhere(cmpd[kind])[0])
-                        v.append((self._fp('%s/%s' % (kind, names[j])), '%s: %s[%s]=%r after %d rows, definition gives %r' % (cfg, names[j], idx, float(got[idx]), i, float(r[idx]))))
+                        v.append((self._fp(after + '%s/%s' % (kind, names[j])), '%s: %s[%s]=%r after %d rows, definition gives %r' % (cfg, names[j], idx, float(got[idx]), i, float(r[idx]))))
                 self.max_err = max(self.max_err, cmpd['max_err'])
                 self.counters['compared_with_definition'] = self.counters.get('compared_with_definition', 0) + 1
             else:
                 self.counters['definition_undefined_not_compared'] = self.counters.get('definition_undefined_not_compared', 0) + 1
         if obs.get('same_as_prev') is False:
-            v.append((self._fp('compute-twice-differs'), '%s: two consecutive compute() calls after %d rows returned different values' % (cfg, i)))
+            v.append((self._fp(after + 'compute-twice-differs'), '%s: two consecutive compute() calls after %d rows returned different values' % (cfg, i)))
         return v
 
 
